@@ -219,7 +219,9 @@ def check_cursor_reset(run, db, rule='R-UNLINK'):
         objs = ['$a', '$b'] if is_swap else ['this']
         probs = []
         any_write = False
-        for s in fwd.summarize(f, db=db, roles=roles, no_forward=True):
+        prims = ('xor_list_set', 'xor_list_change', 'xor_list_get_other', 'xor_list_insert', 'xor_list_iter_next', 'less', 'greater', 'less_equal', 'greater_equal')
+        for s in fwd.summarize(f, db=db, roles=roles, no_forward=True,
+                               inline_pred=lambda fn, callee, t: not callee.cls and callee.short not in prims and len(callee.blocks) <= 8 and 'free_list' in callee.loc):
             if s.end != 'return':
                 continue
             for O in objs:
